@@ -97,7 +97,7 @@ def check(case, viol):
     outcome = 'returned'
     try:
         pipe = A.Compose([getattr(A, name)(p=1.0, **kw)] + [getattr(A, t)(p=1.0) for t in case.get('then', [])], **ckw)
-        random.seed(case['seed'])
+        R.seed(case['seed'])
         np.random.seed(3)
         pipe(**data)
     except Exception as e:  # noqa
@@ -127,7 +127,7 @@ def make_cases(rng, tier):
                 img = spec.get('image', rng.choice(['uint8', 'float', 'int16', 'float64', 'uint16']))
                 supports_boxes = name not in ('CoarseDropout', 'GridDropout')
                 supports_kps = name not in ('BBoxSafeRandomCrop', 'RandomSizedBBoxSafeCrop', 'GridDropout')
-                cases.append({'name': name, 'kw': jsonable(kw), 'shape': [12, 10, 8], 'seed': rng.randint(0, 10 ** 6),
+                cases.append({'name': name, 'kw': jsonable(kw), 'shape': [12, 10, 8], 'seed': R.pick_seed(rng),
                               'image': img, 'layout': lay, 'channels': 2 if 'apply_to_channel_idx' in kw else rng.choice([None, None, 3]),
                               'boxes': rng.choice(['list', 'tuple']) if supports_boxes else None,
                               'kps': rng.choice(['list', 'tuple']) if supports_kps else None,
